@@ -302,3 +302,14 @@ Definition xdiag (c : xcase) : list str :=
    (if (xb_status o =? 200) && (xb_count o =? 1) then [] else [b "STATUS"]) ++
    (if negb (own_elem (xi_tag x) (raw_values via_key (after_removal hin))) then [] else [b "OWNFORWARDED"]) ++
    nodup (list_eq_dec N.eq_dec) (filter (fun k => negb (xkey_ok x hin hout k)) (xdoc_keys ++ keys hin ++ keys hout)).
+
+(* ---------- proxyConn.readRequest: which read deadline is armed while the BODY is read ----------
+   hdr / whole = the header and whole-request deadlines (None = zero time = no deadline).  After the head has been
+   read the source switches to the whole-request deadline when the two differ; Tables.deadline_adjust_requires_whole
+   says whether it (wrongly) does so only when a whole-request deadline is configured. *)
+Definition opt_n_eqb (a c : option N) : bool :=
+  match a, c with Some x, Some y => x =? y | None, None => true | _, _ => false end.
+Definition body_read_deadline (hdr whole : option N) : option N :=
+  if opt_n_eqb hdr whole then hdr
+  else if deadline_adjust_requires_whole then match whole with Some w => Some w | None => hdr end
+  else whole.
